@@ -31,10 +31,13 @@ CONTROLS = [
     # round 2: class-level state looked up through the base classes; a cached hash that
     # crosses a pickle into another interpreter
     ("Buggy_ClassMemo", "invariant", "EqIsPyEq"),
-    ("Buggy_ClassMemo_dict", "invariant", "DictFindsEqual"),
     ("Buggy_PickleKeepsHash", "invariant", "EqIsPyEq"),
+    ("Buggy_ClassMemo_dict", "invariant", "DictFindsEqual"),
     ("Buggy_PickleKeepsHash_dict", "invariant", "DictFindsEqual"),
 ]
+# the quick tier runs one control per Bug switch (the machine-wide TLC slots are scarce)
+THOROUGH_ONLY = {"Buggy_DropField_dict", "Buggy_StaleHash_eq", "Buggy_ClassMemo_dict",
+                 "Buggy_PickleKeepsHash_dict"}
 
 
 def _side_runs(tier):
@@ -42,7 +45,8 @@ def _side_runs(tier):
     jobs = [("laws_" + hm, "C01_Laws", f"C01_Laws_{hm}", None) for hm in ("real", "perfect", "collide")]
     jobs += [("model_" + hm, "C01_Gen", f"C01_Gen_model_{hm}", None)
              for hm in (("real", "perfect", "collide") if tier == "thorough" else ("real",))]
-    jobs += [(c[0], "C01_Gen", f"C01_Gen_{c[0]}", c) for c in CONTROLS]
+    jobs += [(c[0], "C01_Gen", f"C01_Gen_{c[0]}", c) for c in CONTROLS
+             if tier == "thorough" or c[0] not in THOROUGH_ONLY]
 
     def one(job):
         name, mod, cfg, ctl = job
@@ -196,7 +200,7 @@ def run(tier, seed, out):
     wd = kit.fresh_workdir("C01")
     t0 = time.time()
     # -simulate num=N is per worker: 4 workers x N random walks
-    nsim = 75 if tier == "quick" else 2500
+    nsim = 50 if tier == "quick" else 2500
     with cf.ThreadPoolExecutor(max_workers=4) as ex:
         sim_f = ex.submit(kit.run_tlc, "C01_Gen", "C01_Gen_sim", workers=4, heap="3g",
                           simulate=f"num={nsim}", depth=14, seed=seed)
